@@ -64,6 +64,13 @@ def _sigma_to_y_cov_factor(sigma, y_cov_factor, n):
     if sigma_ndim == 0:
         y_cov_factor = eye(n) * sigma
     elif sigma_ndim == 1:
+        if sigma.shape[0] != n:
+            message = (
+                f"The noise vector `sigma` has {sigma.shape[0]:,} entries but describes "
+                f"{n:,} points. Pass one standard deviation per point or a scalar."
+            )
+            logger.error(message)
+            raise ValueError(message)
         y_cov_factor = diagonal(sigma)
     elif sigma_ndim > 1:
         # Extend sigma to higher dimensions, adding a leading dimension for the diagonal
